@@ -129,6 +129,12 @@ def case(cid, rng, sc):
             # also with strongly anisotropic columns (scales down to 1e-6): the information is still contained linearly
             if rng.random() < 0.5:
                 sc = 10.0 ** -rng.integers(0, 7, size=dx)
+                # the total variance must stay far above the scaler's absolute tolerance (1e-12): one column keeps its scale,
+                # a single column is scaled by 1e-4 at most
+                if dx >= 2:
+                    sc[int(rng.integers(dx))] = 1.0
+                else:
+                    sc = np.maximum(sc, 1e-4)
                 Xs = X * sc
                 if rng.random() < 0.6:            # a map that reads only the weakest column
                     Alin = np.zeros((dx, dy)); Alin[int(np.argmin(sc)), :] = rng.integers(1, 4, size=dy)
